@@ -1,21 +1,17 @@
 import AfkakProofs.Client.B_ComposeClose
+import AfkakProofs.Client.B_ComposeBound
 /-!
 # The client component of a composed run IS a run of the client model
 
 `run_proj`: for every run of the composed model (client model × one broker-client model per instance) there is a list
 of client-level events (with the environment's answers) such that the client component of the composed state is the
 state the CLIENT model reaches on that list from the client component of the start state; and when no composed step
-showed the client layer's `badOp "fuel"` (`NoFuelC`), no step of that client run exhausted the fuel (`NoFuel`).
+showed the client layer's `badOp "fuel"` (`NoFuelRun`, B_ComposeBound.lean), no step of that client run exhausted the fuel (`NoFuel`).
 So every theorem about runs of the client model - also the conditional ones (`NoFuel …`) - holds of the client
 component of every composed run.
 -/
 namespace Afkak.ClientCompose
 open Afkak Afkak.BrokerClient
-
-/-- no composed step showed that the client layer's interpreter ran out of fuel -/
-def NoFuelC (cfg : Cfg) : St → List Ev → Prop
-  | _, [] => True
-  | s, e :: rest => Ob.cl (.badOp "fuel") ∉ (step cfg s e).2 ∧ NoFuelC cfg (step cfg s e).1 rest
 
 abbrev crun (cfg : ClientNet.Cfg) (st : ClientNet.St) (l : List (ClientNet.Env × ClientNet.Ev)) : ClientNet.St :=
   l.foldl (fun s e => (ClientNet.step cfg s e.1 e.2).1) st
@@ -146,7 +142,7 @@ theorem step_proj (cfg : Cfg) (s : St) (e : Ev) : Proj cfg s.cl (step cfg s e).1
         · exact advanceBcs_cl cfg dt _ s []
         · exact fun o ho => List.mem_append_left _ (List.mem_append_right _ ho)
 
-theorem run_proj (cfg : Cfg) : ∀ (evs : List Ev) (s : St), NoFuelC cfg s evs →
+theorem run_proj (cfg : Cfg) : ∀ (evs : List Ev) (s : St), NoFuelRun cfg s evs →
     ∃ l, (run cfg s evs).cl = crun cfg.cl s.cl l ∧ ClientNet.NoFuel cfg.cl s.cl l
   | [], s, _ => ⟨[], rfl, trivial⟩
   | e :: es, s, h => by
